@@ -968,12 +968,13 @@ theorem chain_some (b : List String) : ∀ (e e' : SExpr), (chain b e).2 = some 
     simp only [chain, Option.some.injEq] at h
     subst h
     simp only [SExpr.WF] at hwf
-    exact ⟨hwf.2, by simp [SExpr.kv]⟩
+    exact ⟨hwf.2, by simp only [SExpr.kv, List.length_append, List.length_cons, List.length_nil]; omega⟩
   | .cons t false rest, e', h, hwf => by
     simp only [chain] at h
     simp only [SExpr.WF] at hwf
     have := chain_some b rest e' h hwf.2
-    exact ⟨this.1, by simp only [SExpr.kv, List.length_append]; omega⟩
+    exact ⟨this.1, by
+      simp only [SExpr.kv, List.length_append, List.length_cons, List.length_nil]; omega⟩
 
 theorem groups_mkSeq_not_choice (b : List String) (e : SExpr) :
     ∀ y ∈ (e.groups b).map mkSeq, ∀ es, y ≠ .choice es := by
@@ -1062,7 +1063,8 @@ theorem exprBody_full0 {b : List String} {rec : Nat → P Expr} {bound : Nat} (h
         have hk4' : t4.kind = .choiceOp := by simpa [opKV] using hk4
         obtain ⟨hwf', hlt'⟩ := chain_some b rest e' hc hwf.2
         obtain ⟨ts5, h5, hts5⟩ := hrec.full PRECEDENCE_CHOICE (Or.inr rfl) false e' hwf'
-          (by simp only [barKV, List.nil_append]; omega) eof ts4 K (by simpa [barKV] using hts4) hK
+          (by simp only [barKV, Bool.false_eq_true, if_false, List.nil_append]; omega) eof ts4 K
+          (by simpa [barKV] using hts4) hK
         refine ⟨ts5, ?_, hts5⟩
         rw [infixes_choice hk4' hp2]
         simp only [h5, SExpr.den]
@@ -1071,13 +1073,267 @@ theorem exprBody_full0 {b : List String} {rec : Nat → P Expr} {bound : Nat} (h
         obtain ⟨m', hm'⟩ : ∃ m', m = m' + 1 := by
           have h4 := congrArg List.length hts4
           have h2 := congrArg List.length hts2
-          have : ts4.length < ts2.length := by
-            have hsuf := congrArg List.length hts3
-            simp only [tokKV_length, List.length_cons, List.length_append] at hsuf h4 h2
-            omega
+          have hKpos : 0 < K.length := by
+            obtain ⟨k, v, K', rfl, -⟩ := hK
+            simp
+          simp only [tokKV_length, List.length_append] at h4 h2
           exact ⟨m - 1, by omega⟩
         subst hm'
         exact stop hts5
+
+theorem exprBody_full {b : List String} {rec : Nat → P Expr} {bound : Nat} (hrec : RecOK b rec bound)
+    (p : Nat) (hp : p = PRECEDENCE_LOWEST ∨ p = PRECEDENCE_CHOICE) (bar : Bool) (e : SExpr) (hwf : e.WF)
+    (hlen : (barKV bar ++ e.kv).length ≤ bound) (eof : Token) (ts : List Token) (K : List KV)
+    (h : tokKV ts = barKV bar ++ e.kv ++ K) (hK : Closer K) :
+    ∃ ts', exprBody b rec p eof ts = .ok (e.den b) ts' ∧ tokKV ts' = K := by
+  cases bar with
+  | false =>
+    simp only [barKV, Bool.false_eq_true, if_false, List.nil_append] at h hlen
+    exact exprBody_full0 hrec p hp e hwf hlen eof ts K h hK
+  | true =>
+    simp only [barKV, if_true, List.cons_append, List.nil_append, List.length_cons] at h hlen
+    obtain ⟨t0, ts0, rfl, hk0, -, h0⟩ := tokKV_cons_inv h
+    simp only at hk0
+    obtain ⟨kv, rest, he, hkv⟩ := expr_head e
+    have h0' := h0
+    rw [he] at h0'
+    obtain ⟨t1, ts1, rfl, hk1, -, -⟩ := tokKV_cons_inv h0'
+    rw [exprBody_skip_bar hk0 (by rw [hk1]; exact hkv)]
+    exact exprBody_full0 hrec p hp e hwf (by omega) eof _ K h0 hK
+
+/-- **`parse_expression` reads every well-formed term and expression** (fuel above the token
+    count) -/
+theorem recOK (b : List String) : ∀ fuel, RecOK b (parseExpression b fuel) fuel
+  | 0 => ⟨fun _ _ h => absurd h (Nat.not_lt_zero _), fun _ _ h => absurd h (Nat.not_lt_zero _),
+      fun _ _ _ _ _ h => absurd h (Nat.not_lt_zero _)⟩
+  | fuel + 1 => by
+    have ih := recOK b fuel
+    refine ⟨?_, ?_, ?_⟩
+    · intro t hwf hlen eof ts K h hK
+      exact exprBody_term ih t hwf (by omega) eof ts K h hK
+    · intro e hwf hlen eof ts K h hK
+      exact exprBody_chain ih e hwf (by omega) eof ts K h hK
+    · intro p hp bar e hwf hlen eof ts K h hK
+      exact exprBody_full ih p hp bar e hwf (by omega) eof ts K h hK
+
+/-! ### rules -/
+
+theorem docLines_all (kind : TK) (m : Text) (eof : Token) : ∀ (docs : List Text) (n : Nat) (acc : List Text)
+    (ts : List Token) (K : List KV), docs.length < n →
+    tokKV ts = (docs.map (docKV kind m)).flatten ++ K →
+    (∀ k v K', K = (k, v) :: K' → k ≠ kind) → (K = [] → eof.kind ≠ kind) →
+    ∃ ts', docLines kind n acc eof ts = .ok (acc ++ docs) ts' ∧ tokKV ts' = K := by
+  intro docs
+  induction docs with
+  | nil =>
+    intro n acc ts K hn h hK hE
+    cases n with
+    | zero => simp at hn
+    | succ n =>
+      simp only [List.map_nil, List.flatten_nil, List.nil_append] at h
+      refine ⟨ts, ?_, h⟩
+      cases ts with
+      | nil =>
+        have : eof.kind ≠ kind := hE (by simpa using h.symm)
+        simp [docLines, current, this]
+      | cons t ts =>
+        have : t.kind ≠ kind := hK t.kind t.value (tokKV ts) (by rw [← h]; rfl)
+        simp [docLines, this]
+  | cons d docs ih =>
+    intro n acc ts K hn h hK hE
+    cases n with
+    | zero => simp at hn
+    | succ n =>
+      simp only [List.map_cons, List.flatten_cons, docKV, List.cons_append, List.nil_append] at h
+      obtain ⟨t1, ts1, rfl, hk1, -, h⟩ := tokKV_cons_inv h
+      obtain ⟨t2, ts2, rfl, hk2, hv2, h⟩ := tokKV_cons_inv h
+      simp only at hk1 hk2 hv2
+      obtain ⟨ts', h', hts'⟩ := ih n (acc ++ [d]) ts2 K (by simp at hn; omega) h hK hE
+      refine ⟨ts', ?_, hts'⟩
+      simp [docLines, hk1, eat, hk2, hv2, h']
+
+theorem docs_length_le (kind : TK) (m : Text) (docs : List Text) :
+    docs.length ≤ ((docs.map (docKV kind m)).flatten).length := by
+  induction docs with
+  | nil => simp
+  | cons d ds ih =>
+    simp only [List.map_cons, List.flatten_cons, List.length_append, List.length_cons, docKV, List.length_nil]
+    omega
+
+theorem parseModifier_some {eof t : Token} {ts : List Token} {c : Nat} (hk : t.kind = .modifier)
+    (hv : t.value = [c]) : parseModifier eof (t :: ts) = .ok (modifierBits [c]) ts := by
+  simp [parseModifier, hk, hv]
+
+theorem parseModifier_none {eof t : Token} {ts : List Token} (hk : t.kind ≠ .modifier) :
+    parseModifier eof (t :: ts) = .ok 0 (t :: ts) := by
+  simp [parseModifier, hk]
+
+/-- one rule -/
+theorem parseRule_one (b : List String) (eof : Token) (r : SRule) (hwf : r.WF) (n : Nat)
+    (acc : List FRule) (ts : List Token) (K : List KV) (h : tokKV ts = r.kv ++ K) :
+    ∃ ts', parseRules b (n + 1) acc eof ts = parseRules b n (dictSet acc (r.den b)) eof ts' ∧ tokKV ts' = K := by
+  obtain ⟨hwdocs, -, hwmod, hwbody⟩ := hwf
+  simp only [SRule.kv, List.append_assoc, List.cons_append, List.nil_append] at h
+  -- the first token is not EOI
+  have hfirst : ∃ t0 ts0, ts = t0 :: ts0 ∧ t0.kind ≠ .eoi := by
+    cases hd : r.docs with
+    | nil =>
+      rw [hd] at h
+      simp only [List.map_nil, List.flatten_nil, List.nil_append] at h
+      obtain ⟨t1, ts1, rfl, hk1, -, -⟩ := tokKV_cons_inv h
+      exact ⟨t1, ts1, rfl, by simp only at hk1; rw [hk1]; simp⟩
+    | cons d ds =>
+      rw [hd] at h
+      simp only [List.map_cons, List.flatten_cons, docKV, List.cons_append, List.nil_append] at h
+      obtain ⟨t1, ts1, rfl, hk1, -, -⟩ := tokKV_cons_inv h
+      exact ⟨t1, ts1, rfl, by simp only at hk1; rw [hk1]; simp⟩
+  obtain ⟨t0, ts0, rfl, hk0⟩ := hfirst
+  obtain ⟨ts1, h1, hts1⟩ := docLines_all .ruleDoc sRDOC eof r.docs ((t0 :: ts0).length + 1) [] (t0 :: ts0) _
+    (by
+      have := congrArg List.length h
+      have hle := docs_length_le .ruleDoc sRDOC r.docs
+      simp only [tokKV_length, List.length_append] at this
+      omega) h (by intro k v K' hK; simp at hK; rw [← hK.1.1]; simp) (by simp)
+  obtain ⟨t2, ts2, rfl, hk2, hv2, h⟩ := tokKV_cons_inv hts1
+  obtain ⟨t3, ts3, rfl, hk3, -, h⟩ := tokKV_cons_inv h
+  simp only at hk2 hv2 hk3
+  have hk2' : t2.kind ≠ .eoi := by rw [hk2]; simp
+  -- the modifier
+  have hmod : ∃ ts4, parseModifier eof ts3 = .ok ((r.mod.map fun c => modifierBits [c]).getD 0) ts4 ∧
+      tokKV ts4 = (TK.lbrace, [123]) :: (barKV r.bar ++ (r.body.kv ++ ((TK.rbrace, [125]) :: K))) := by
+    cases hm : r.mod with
+    | none =>
+      rw [hm] at h
+      simp only [modKV, List.nil_append] at h
+      obtain ⟨t4, ts4, rfl, hk4, -, h4⟩ := tokKV_cons_inv h
+      exact ⟨t4 :: ts4, by rw [parseModifier_none (by simp only at hk4; rw [hk4]; simp)]; rfl, h⟩
+    | some c =>
+      rw [hm] at h
+      simp only [modKV, List.cons_append, List.nil_append] at h
+      obtain ⟨t4, ts4, rfl, hk4, hv4, h4⟩ := tokKV_cons_inv h
+      exact ⟨ts4, by rw [parseModifier_some hk4 hv4]; rfl, h4⟩
+  obtain ⟨ts4, h4, hts4⟩ := hmod
+  obtain ⟨t5, ts5, rfl, hk5, -, h5⟩ := tokKV_cons_inv hts4
+  simp only at hk5
+  have hfuel : (barKV r.bar ++ r.body.kv).length < ts5.length + 1 := by
+    have := congrArg List.length h5
+    simp only [tokKV_length, List.length_append, List.length_cons] at this ⊢
+    omega
+  obtain ⟨ts6, h6, hts6⟩ := (recOK b (ts5.length + 1)).full PRECEDENCE_LOWEST (Or.inl rfl) r.bar r.body hwbody
+    hfuel eof ts5 ((TK.rbrace, [125]) :: K) (by simpa [List.append_assoc] using h5) ⟨_, _, _, rfl, Or.inl rfl⟩
+  obtain ⟨t7, ts7, rfl, hk7, -, h7⟩ := tokKV_cons_inv hts6
+  simp only at hk7
+  refine ⟨ts7, ?_, h7⟩
+  simp only [parseRules, bind_eq, current_cons, hk0, if_false, h1, hk2']
+  simp [eat, hk2, hk3, h4, hk5, h6, hk7, SRule.den, hv2]
+
+theorem rule_kv_head (r : SRule) : ∃ k v rest, r.kv = (k, v) :: rest ∧ (k = .ruleDoc ∨ k = .identifier) := by
+  cases hd : r.docs with
+  | nil =>
+    exact ⟨.identifier, r.name, (.assignOp, [61]) :: (modKV r.mod ++ [(.lbrace, [123])] ++ barKV r.bar ++
+      r.body.kv ++ [(.rbrace, [125])]), by simp [SRule.kv, hd], Or.inr rfl⟩
+  | cons d ds =>
+    exact ⟨.ruleDoc, sRDOC, (.commentText, d) :: ((ds.map (docKV .ruleDoc sRDOC)).flatten ++
+      [(.identifier, r.name), (.assignOp, [61])] ++ modKV r.mod ++ [(.lbrace, [123])] ++ barKV r.bar ++
+      r.body.kv ++ [(.rbrace, [125])]), by simp [SRule.kv, hd, docKV], Or.inl rfl⟩
+
+theorem rule_kv_length_pos (r : SRule) : 0 < r.kv.length := by
+  obtain ⟨k, v, rest, h, -⟩ := rule_kv_head r
+  simp [h]
+
+/-- all the rules, then the trailing doc comments, then the end of the token list -/
+theorem parseRules_all (b : List String) (eof : Token) (heof : eof.kind = .eoi) (trailing : List Text) :
+    ∀ (rs : List SRule), (∀ r ∈ rs, r.WF) → ∀ (n : Nat) (acc : List FRule) (ts : List Token),
+    rs.length < n →
+    tokKV ts = (rs.map SRule.kv).flatten ++ (trailing.map (docKV .ruleDoc sRDOC)).flatten →
+    parseRules b n acc eof ts = .ok (rs.foldl (fun acc r => dictSet acc (r.den b)) acc) [] := by
+  intro rs
+  induction rs with
+  | nil =>
+    intro _ n acc ts hn h
+    cases n with
+    | zero => simp at hn
+    | succ n =>
+      simp only [List.map_nil, List.flatten_nil, List.nil_append] at h
+      cases ts with
+      | nil => simp [parseRules, current, heof]
+      | cons t0 ts0 =>
+        have hk0 : t0.kind = .ruleDoc := by
+          cases trailing with
+          | nil => simp at h
+          | cons d ds =>
+            simp only [List.map_cons, List.flatten_cons, docKV, List.cons_append] at h
+            obtain ⟨t1, ts1, h1, hk1, -, -⟩ := tokKV_cons_inv h
+            simp only [List.cons.injEq] at h1
+            rw [h1.1]; exact hk1
+        obtain ⟨ts1, h1, hts1⟩ := docLines_all .ruleDoc sRDOC eof trailing ((t0 :: ts0).length + 1) [] (t0 :: ts0) []
+          (by
+            have := congrArg List.length h
+            have hle := docs_length_le .ruleDoc sRDOC trailing
+            simp only [tokKV_length] at this
+            omega) (by simpa using h) (by intro k v K' hK; simp at hK) (by intro _; rw [heof]; simp)
+        have hnil : ts1 = [] := by cases ts1 with | nil => rfl | cons a l => simp at hts1
+        subst hnil
+        have : t0.kind ≠ .eoi := by rw [hk0]; simp
+        simp only [parseRules, bind_eq, current_cons, this, if_false, h1]
+        simp [current, heof]
+  | cons r rs ih =>
+    intro hwf n acc ts hn h
+    cases n with
+    | zero => simp at hn
+    | succ n =>
+      simp only [List.map_cons, List.flatten_cons, List.append_assoc] at h
+      obtain ⟨ts', h', hts'⟩ := parseRule_one b eof r (hwf r (by simp)) n acc ts _ h
+      rw [h', List.foldl_cons]
+      exact ih (fun q hq => hwf q (by simp [hq])) n _ ts' (by simp at hn; omega) hts'
+
+theorem rules_length_le (rs : List SRule) : rs.length ≤ ((rs.map SRule.kv).flatten).length := by
+  induction rs with
+  | nil => simp
+  | cons r rs ih =>
+    have := rule_kv_length_pos r
+    simp only [List.map_cons, List.flatten_cons, List.length_append, List.length_cons]; omega
+
+/-- **the parser half of the round trip**: on any token list whose kinds and values are those of
+    a well-formed source-level grammar, `Parser(tokens, builtins).parse()` returns the rule table
+    and the grammar doc the grammar denotes -/
+theorem parseTokens_roundtrip (b : List String) (g : SGrammar) (hwf : g.WF) (eof : Token)
+    (heof : eof.kind = .eoi) (ts : List Token) (h : tokKV ts = g.kv) :
+    parseTokens b eof ts = .ok (g.den b) [] := by
+  obtain ⟨-, hwrules, -⟩ := hwf
+  simp only [SGrammar.kv, List.append_assoc] at h
+  -- what follows the grammar docs does not start with a grammar-doc token
+  have hK : ∀ k v K', (g.rules.map SRule.kv).flatten ++ (g.trailing.map (docKV .ruleDoc sRDOC)).flatten = (k, v) :: K' →
+      k ≠ .grammarDoc := by
+    intro k v K' hK
+    cases hr : g.rules with
+    | nil =>
+      rw [hr] at hK
+      cases ht : g.trailing with
+      | nil => rw [ht] at hK; simp at hK
+      | cons d ds =>
+        rw [ht] at hK
+        simp [docKV] at hK
+        rw [← hK.1.1]; simp
+    | cons r rs =>
+      rw [hr] at hK
+      obtain ⟨k', v', rest, hrk, hk'⟩ := rule_kv_head r
+      simp [hrk] at hK
+      rw [← hK.1.1]
+      rcases hk' with rfl | rfl <;> simp
+  obtain ⟨ts1, h1, hts1⟩ := docLines_all .grammarDoc sGDOC eof g.gdocs (ts.length + 1) [] ts _
+    (by
+      have := congrArg List.length h
+      have hle := docs_length_le .grammarDoc sGDOC g.gdocs
+      simp only [tokKV_length, List.length_append] at this
+      omega) h hK (by intro _; rw [heof]; simp)
+  have h2 := parseRules_all b eof heof g.trailing g.rules hwrules (ts1.length + 1) [] ts1
+    (by
+      have := congrArg List.length hts1
+      have hle := rules_length_le g.rules
+      simp only [tokKV_length, List.length_append] at this
+      omega) hts1
+  simp [parseTokens, h1, h2, SGrammar.den]
 
 end PRT
 end Front
